@@ -8,7 +8,7 @@ E2-style exhaustive history enumeration (no sampling), every case on a FRESH ses
           handler, RANDOMIZE+RND) built by a program that STOPs inside its frames, followed by each of 13
           reset operations (RUN, RUN n, CLEAR [,m] [,,s], NEW - from direct mode and from inside the
           frames -, adding / deleting a line, DELETE) and a fixed battery of observations.
-  chain   every ordered history of <=2 / <=3 variable operations out of 10, x 21 COMMON lists (incl. a scalar and an array of the same name in both orders; all 16
+  chain   every ordered history of <=2 / <=3 variable operations out of 10, x 24 COMMON lists (incl. a scalar and an array of the same name in both orders, in one and in two COMMON statements; all 16
           subsets of {A!,B$,C%(),D$()} and three more) x CHAIN / CHAIN ,line / ,,ALL / MERGE /
           MERGE+DELETE / MERGE ALL x OPTION BASE 0/1 x normal / tight memory.
 Oracle: a dict model of what the builders assigned; fresh-session values for everything else.
@@ -28,7 +28,7 @@ LEVEL_TEXT = (
     'frames, error trap, active error handler, random sequence) - are built on a fresh interpreter, '
     'followed by each of 13 forms of RUN / CLEAR / NEW / line edit, and every component is then observed '
     'through BASIC. For CHAIN every ordered history of up to 3 (quick: 2) variable operations is combined '
-    'with 21 COMMON lists, 6 CHAIN forms, OPTION BASE 0/1 and normal / tight memory, and presence and '
+    'with 24 COMMON lists, 6 CHAIN forms, OPTION BASE 0/1 and normal / tight memory, and presence and '
     'exact value of every name of a fixed universe is compared with a dict model. Enumeration is '
     'exhaustive within these bounds; no state merging is needed at this depth.')
 LEVEL_NOTE = (
@@ -138,7 +138,8 @@ def _program(builders, stop_stmt, common=None, order=None):
     b = set(builders)
     L = ['10 END', '12 REM PADDINGPADDINGPADDING']
     if common:
-        L.append('15 COMMON ' + ','.join(common))
+        # ('/' in the list starts a new COMMON statement)
+        L.append('15 COMMON ' + ','.join(common).replace(',/,', ':COMMON '))
     L.append('20 OPTION BASE 1' if 'ob' in b else '20 REM')
     if 'dt' in b:
         L.append('25 DEFINT A-C:DEFSTR S')
@@ -497,10 +498,14 @@ def _common_lists():
     # a scalar and an array of the same name in one COMMON statement, in both orders
     out.append(['A!', 'A!()'])
     out.append(['A!()', 'A!'])
+    # ... and in two COMMON statements; a longer list spread over two statements with a name given twice
+    out.append(['A!', '/', 'A!()'])
+    out.append(['A!()', '/', 'A!'])
+    out.append(['B$', 'A!', '/', 'C%()', 'B$', 'D$()'])
     return out
 
 
-COMMONS = _common_lists()      # 21
+COMMONS = _common_lists()      # 24
 # for the longest histories (thorough): none, each single name, all four, all eight
 REDUCED_COMMONS = [i for i, c in enumerate(COMMONS) if len(c) in (0, 1, 8) or c == COMMON_UNIVERSE]
 
@@ -567,6 +572,8 @@ def run_chain_case(part, order, ci, chi, base, tight, extras):
         else:
             expect = _new_model()
             for name in common:
+                if name == '/':
+                    continue
                 if name.endswith('()'):
                     if name[:-2] in model['ar']:
                         expect['ar'][name[:-2]] = model['ar'][name[:-2]]
